@@ -1,4 +1,317 @@
+(* C07 — the hand-over automaton of proxyFrac: invariants over ALL label lists. *)
 From Coq Require Import List Bool Arith NArith Lia.
 From C07 Require Import Model.
 Import ListNotations.
-Lemma placeholder : True. Proof. exact I. Qed.
+
+(* ---------------------------------------------------------------- list helpers *)
+Lemma length_upd {A} (h : A -> A) n l : length (upd n h l) = length l.
+Proof. revert n; induction l; destruct n; simpl; auto. Qed.
+
+Lemma nth_error_upd {A} (h : A -> A) l n g :
+  nth_error (upd n h l) g = if Nat.eqb g n then option_map h (nth_error l g) else nth_error l g.
+Proof.
+  revert n g; induction l; intros n g; simpl.
+  - destruct g, n; simpl; try reflexivity; destruct (Nat.eqb g n); reflexivity.
+  - destruct n, g; simpl; auto.
+Qed.
+
+Lemma map_upd_same {A B} (k : A -> B) (h : A -> A) n l :
+  (forall x, k (h x) = k x) -> map k (upd n h l) = map k l.
+Proof. intros H; revert n; induction l; destruct n; simpl; auto; rewrite ?H, ?IHl; auto. Qed.
+
+Lemma nth_error_getf st g f : nth_error (fracs st) g = Some f -> getf st g = f.
+Proof. intros H; unfold getf; apply nth_error_nth; auto. Qed.
+
+(* ---------------------------------------------------------------- the part of a fraction the automaton is about *)
+Record key := mkKey { k_act : bool; k_sld : bool; k_ro : bool; k_seal : spc; k_wg : nat }.
+Definition key_of (f : frac) : key := mkKey (f_act f) (f_sld f) (f_ro f) (f_seal f) (f_wg f).
+Definition keys (st : state) : list key := map key_of (fracs st).
+
+(* the state table of proxy_frac.go, phase by phase of the seal thread *)
+Definition table_ok (k : key) : bool :=
+  match k_seal k with
+  | SNone | SRot => (k_act k && negb (k_sld k) && negb (k_ro k)) || (negb (k_act k) && negb (k_sld k))
+  | SRo | SIdle | SBuilt => k_act k && negb (k_sld k) && k_ro k
+  | _ => (negb (k_act k) && k_sld k && k_ro k) || (negb (k_act k) && negb (k_sld k))
+  end.
+(* the seal thread has passed WaitWriteIdle *)
+Definition idle_passed (p : spc) : bool :=
+  match p with SIdle | SBuilt | SSwapped | SReleased | SRepl | SDone => true | _ => false end.
+
+Definition pf (sh len g : nat) (k : key) : Prop :=
+  table_ok k = true
+  /\ (k_act k = false -> k_sld k = false -> g < sh /\ k_wg k = 0)
+  /\ (idle_passed (k_seal k) = true -> k_wg k = 0)
+  /\ (g = pred len -> k_seal k = SNone).       (* the current writer has no seal thread *)
+
+Definition Inv (st : state) : Prop :=
+  forall g k, nth_error (keys st) g = Some k -> pf (shift st) (length (keys st)) g k.
+
+Lemma keys_setw st w h : keys (setw st w h) = keys st. Proof. reflexivity. Qed.
+Lemma keys_setr st r h : keys (setr st r h) = keys st. Proof. reflexivity. Qed.
+Lemma keys_setf_same st g h : (forall x, key_of (h x) = key_of x) -> keys (setf st g h) = keys st.
+Proof. intros; unfold keys, setf; simpl; apply map_upd_same; auto. Qed.
+
+Lemma keys_setf st g h n :
+  nth_error (keys (setf st g h)) n =
+  if Nat.eqb n g then option_map (fun f => key_of (h f)) (nth_error (fracs st) n) else nth_error (keys st) n.
+Proof.
+  unfold keys, setf; simpl. rewrite !nth_error_map, nth_error_upd.
+  destruct (Nat.eqb n g); auto. destruct (nth_error (fracs st) n); auto.
+Qed.
+
+Lemma Inv_same st st' : keys st' = keys st -> shift st' = shift st -> Inv st -> Inv st'.
+Proof. unfold Inv; intros -> ->; auto. Qed.
+
+(* a step that rewrites fraction g's key by a function of the old key *)
+Lemma Inv_setf st g h :
+  Inv st ->
+  (forall f, nth_error (fracs st) g = Some f -> pf (shift st) (length (keys st)) g (key_of f) ->
+             pf (shift st) (length (keys st)) g (key_of (h f))) ->
+  Inv (setf st g h).
+Proof.
+  intros HI Hh n k Hn.
+  assert (L : length (keys (setf st g h)) = length (keys st)) by (unfold keys, setf; simpl; rewrite !map_length, length_upd; auto).
+  rewrite L. rewrite keys_setf in Hn. destruct (Nat.eqb_spec n g).
+  - subst n. destruct (nth_error (fracs st) g) eqn:E; simpl in Hn; inversion Hn; subst.
+    apply Hh; auto. apply HI. unfold keys; rewrite nth_error_map, E; auto.
+  - apply HI; auto.
+Qed.
+
+(* ---------------------------------------------------------------- reader steps do not touch the automaton *)
+Lemma key_set_rl f n : key_of (set_rl f n) = key_of f. Proof. reflexivity. Qed.
+Lemma key_set_toks f t : key_of (set_toks f t) = key_of f. Proof. reflexivity. Qed.
+
+Lemma advance_keys st r g q a b m n s p :
+  keys (fst (advance st r g q a b m n s p)) = keys st /\ shift (fst (advance st r g q a b m n s p)) = shift st.
+Proof.
+  revert s; induction p; intros s; simpl.
+  - split; auto. unfold set_op. rewrite keys_setr. apply keys_setf_same; intros; apply key_set_rl.
+  - destruct (has_tok a0 (f_toks (getf st g))); simpl; auto.
+Qed.
+
+Lemma step_r_keys c st r : keys (fst (step_r c st r)) = keys st /\ shift (fst (step_r c st r)) = shift st.
+Proof.
+  unfold step_r. destruct (nth_error (rs st) r) as [x|]; simpl; auto.
+  destruct (r_op x) as [|g q pc a b m n s p|g ids nb]; simpl; auto.
+  - destruct pc; simpl.
+    + split; auto. unfold set_op; rewrite keys_setr. apply keys_setf_same; intros; apply key_set_toks.
+    + destruct (forallb _ m); simpl; auto. split; auto. unfold set_op; rewrite keys_setr.
+      apply keys_setf_same; intros; apply key_set_rl.
+    + apply advance_keys.
+    + destruct p as [|t p]; simpl; auto.
+      match goal with
+      | |- context [advance ?st' r g q a b m n ?s' p] =>
+          let H1 := fresh in let H2 := fresh in
+          pose proof (advance_keys st' r g q a b m n s' p) as [H1 H2]; rewrite H1, H2; split; auto;
+          apply keys_setf_same; intros; apply key_set_toks
+      end.
+  - destruct (existsb _ _); simpl; split; auto; unfold set_op; rewrite keys_setr;
+      apply keys_setf_same; intros; apply key_set_rl.
+Qed.
+
+Lemma step_sb_keys c st r j q : keys (fst (step_sb c st r j q)) = keys st /\ shift (fst (step_sb c st r j q)) = shift st.
+Proof.
+  unfold step_sb. destruct (nth_error (rs st) r) as [x|]; simpl; auto.
+  destruct (nth_error (c_qs c) q) as [[[qq qf] qt]|]; simpl; auto.
+  destruct (r_op x); simpl; auto. destruct (nth_error (r_snap x) j) as [g|]; simpl; auto.
+  repeat match goal with |- context [if ?b then _ else _] => destruct b; simpl; auto end.
+  split; auto. unfold set_op; rewrite keys_setr. apply keys_setf_same; intros; apply key_set_rl.
+Qed.
+
+Lemma step_fb_keys c st r j ids : keys (fst (step_fb c st r j ids)) = keys st /\ shift (fst (step_fb c st r j ids)) = shift st.
+Proof.
+  unfold step_fb. destruct (nth_error (rs st) r) as [x|]; simpl; auto.
+  destruct (r_op x); simpl; auto. destruct (nth_error (r_snap x) j) as [g|]; simpl; auto.
+  destruct ids; simpl; auto.
+  repeat match goal with |- context [if ?b then _ else _] => destruct b; simpl; auto end.
+  split; auto. unfold set_op; rewrite keys_setr. apply keys_setf_same; intros; apply key_set_rl.
+Qed.
+
+Lemma step_snap_keys st r : keys (fst (step_snap st r)) = keys st /\ shift (fst (step_snap st r)) = shift st.
+Proof.
+  unfold step_snap. destruct (nth_error (rs st) r) as [x|]; simpl; auto. destruct (r_op x); simpl; auto.
+Qed.
+
+(* ---------------------------------------------------------------- writer steps *)
+Lemma Inv_setw st w h : Inv st -> Inv (setw st w h).
+Proof. apply Inv_same; reflexivity. Qed.
+Lemma Inv_setf_same st g h : (forall x, key_of (h x) = key_of x) -> Inv st -> Inv (setf st g h).
+Proof. intros H; apply Inv_same; [apply keys_setf_same; auto | reflexivity]. Qed.
+
+Ltac same_key := simpl; first [assumption | apply Inv_setw; first [assumption | apply Inv_setf_same; [intros; reflexivity | assumption]]].
+
+Lemma step_w_inv c st w : Inv st -> Inv (fst (step_w c st w)).
+Proof.
+  intros HI. unfold step_w. destruct (nth_error (ws st) w) as [x|]; simpl; auto.
+  destruct (w_pc x) as [|[|[|[|[|[|[|[|[|pc]]]]]]]]]; simpl.
+  - destruct (Nat.ltb _ _); same_key.
+  - destruct (f_act (getf st (w_g x)) && negb (f_sld (getf st (w_g x))) && negb (f_ro (getf st (w_g x))))%bool eqn:G; [|same_key].
+    simpl. apply Inv_setw. apply Inv_setf; auto. intros f Hf [T [S1 [S2 S3]]]. rewrite (nth_error_getf _ _ _ Hf) in G.
+    apply andb_prop in G as [G G3]. apply andb_prop in G as [G1 G2].
+    unfold pf, key_of, table_ok in *; simpl in *.
+    rewrite G1 in *. destruct (f_sld f), (f_ro f); simpl in *; try discriminate.
+    repeat split; auto; try discriminate.
+    destruct (f_seal f); simpl in *; auto; try discriminate.
+  - same_key.
+  - destruct (set_multiple _ _ _ _); same_key.
+  - same_key.
+  - same_key.
+  - destruct (put_order _ _); same_key.
+  - destruct (Nat.ltb _ _); same_key.
+  - same_key.
+  - apply Inv_setw. apply Inv_setf; auto. intros f Hf [T [S1 [S2 S3]]].
+    unfold pf, key_of in *; simpl in *. repeat split; auto.
+    + apply S1; auto.
+    + rewrite (proj2 (S1 H H0)); auto.
+    + intros H; rewrite S2; auto.
+Qed.
+
+(* ---------------------------------------------------------------- maintenance steps *)
+Lemma step_rot_inv st : Inv st -> Inv (fst (step_rot st)).
+Proof.
+  intros HI. unfold step_rot. destruct (Nat.ltb _ _); simpl; auto.
+  intros n k Hn. unfold keys in *; simpl in *. rewrite map_app in *. simpl in *.
+  rewrite app_length, map_length, length_upd. simpl. rewrite Nat.add_1_r. simpl.
+  destruct (Nat.lt_ge_cases n (length (fracs st))) as [L|L].
+  - rewrite nth_error_app1 in Hn by (rewrite map_length, length_upd; auto).
+    rewrite nth_error_map, nth_error_upd in Hn.
+    destruct (Nat.eqb_spec n (last_g st)) as [E0|E0].
+    + destruct (nth_error (fracs st) n) as [f|] eqn:E; simpl in Hn; inversion Hn; subst k.
+      assert (P : pf (shift st) (length (map key_of (fracs st))) n (key_of f))
+        by (apply HI; unfold keys; rewrite nth_error_map, E; auto).
+      destruct P as [T [S1 [S2 S3]]]. rewrite map_length in S3. unfold last_g in E0. specialize (S3 E0).
+      unfold pf, key_of, table_ok in *; simpl in *. rewrite S3 in *.
+      repeat split; auto; try discriminate; intros; try (apply S1; auto); lia.
+    + assert (P : pf (shift st) (length (map key_of (fracs st))) n k) by (apply HI; unfold keys; rewrite nth_error_map; auto).
+      destruct P as [T [S1 [S2 S3]]]. repeat split; auto; intros; try (apply S1; auto); simpl in *; lia.
+  - rewrite nth_error_app2 in Hn by (rewrite map_length, length_upd; auto).
+    rewrite map_length, length_upd in Hn.
+    destruct (n - length (fracs st)) as [|m] eqn:E; simpl in Hn; [|destruct m; discriminate].
+    inversion Hn; subst. unfold pf; simpl. repeat split; auto; discriminate.
+Qed.
+
+Lemma step_m_inv c st g : Inv st -> Inv (fst (step_m c st g)).
+Proof.
+  intros HI. unfold step_m. destruct (nth_error (fracs st) g) as [f|] eqn:E; simpl; auto.
+  assert (P : pf (shift st) (length (keys st)) g (key_of f)) by (apply HI; unfold keys; rewrite nth_error_map, E; auto).
+  destruct (f_seal f) eqn:ES; simpl; auto.
+  - (* SRot *) destruct (negb (f_act f || f_sld f)) eqn:G; simpl; apply Inv_setf; auto; intros f' Hf' _;
+      rewrite E in Hf'; inversion Hf'; subst f'; destruct P as [T [S1 [S2 S3]]];
+      unfold pf, key_of, table_ok in *; simpl in *; rewrite ES in *;
+      destruct (f_act f), (f_sld f), (f_ro f); simpl in *; try discriminate;
+      repeat split; auto; try discriminate; intros; try (apply S1; auto); try (match goal with HH : _ = Init.Nat.pred _ |- _ => specialize (S3 HH); discriminate end).
+  - (* SRo *) destruct (Nat.eqb_spec (f_wg f) 0) as [W|W]; simpl; auto. apply Inv_setf; auto; intros f' Hf' _.
+    rewrite E in Hf'; inversion Hf'; subst f'. destruct P as [T [S1 [S2 S3]]].
+    unfold pf, key_of, table_ok in *; simpl in *; rewrite ES in *.
+    repeat split; auto; intros; try (apply S1; auto); try (match goal with HH : _ = Init.Nat.pred _ |- _ => specialize (S3 HH); discriminate end).
+  - (* SIdle *) apply Inv_setf; auto; intros f' Hf' _.
+    rewrite E in Hf'; inversion Hf'; subst f'. destruct P as [T [S1 [S2 S3]]].
+    unfold pf, key_of, table_ok in *; simpl in *; rewrite ES in *.
+    repeat split; auto; intros; try (apply S1; auto); try (match goal with HH : _ = Init.Nat.pred _ |- _ => specialize (S3 HH); discriminate end).
+  - (* SBuilt *) apply Inv_setf; auto; intros f' Hf' _.
+    rewrite E in Hf'; inversion Hf'; subst f'. destruct P as [T [S1 [S2 S3]]].
+    unfold pf, key_of, table_ok in *; simpl in *; rewrite ES in *.
+    destruct (f_act f), (f_sld f), (f_ro f); simpl in *; try discriminate.
+    repeat split; auto; intros; try discriminate; try (apply S1; auto); try (match goal with HH : _ = Init.Nat.pred _ |- _ => specialize (S3 HH); discriminate end).
+  - (* SSwapped *) destruct (Nat.eqb (f_rl f) 0); simpl; auto. apply Inv_setf; auto; intros f' Hf' _.
+    rewrite E in Hf'; inversion Hf'; subst f'. destruct P as [T [S1 [S2 S3]]].
+    unfold pf, key_of, table_ok in *; simpl in *; rewrite ES in *.
+    repeat split; auto; intros; try (apply S1; auto); try (match goal with HH : _ = Init.Nat.pred _ |- _ => specialize (S3 HH); discriminate end).
+  - (* SReleased *) apply Inv_setf; auto; intros f' Hf' _.
+    rewrite E in Hf'; inversion Hf'; subst f'. destruct P as [T [S1 [S2 S3]]].
+    unfold pf, key_of, table_ok in *; simpl in *; rewrite ES in *.
+    repeat split; auto; intros; try (apply S1; auto); try (match goal with HH : _ = Init.Nat.pred _ |- _ => specialize (S3 HH); discriminate end).
+  - (* SRepl *) apply Inv_setf; auto; intros f' Hf' _.
+    rewrite E in Hf'; inversion Hf'; subst f'. destruct P as [T [S1 [S2 S3]]].
+    unfold pf, key_of, table_ok in *; simpl in *; rewrite ES in *.
+    repeat split; auto; intros; try (apply S1; auto); try (match goal with HH : _ = Init.Nat.pred _ |- _ => specialize (S3 HH); discriminate end).
+Qed.
+
+Lemma step_sui_inv st : Inv st -> Inv (fst (step_sui st)).
+Proof.
+  intros HI. unfold step_sui. destruct (sui_enabled st) eqn:EN; simpl; auto.
+  unfold sui_enabled in EN. apply andb_prop in EN as [EN E4]. apply andb_prop in EN as [EN E3]. apply andb_prop in EN as [E1 E2].
+  apply Nat.leb_le in E1. apply Nat.eqb_eq in E2.
+  intros n k Hn. unfold keys in *; simpl in *. rewrite map_length, length_upd.
+  rewrite nth_error_map, nth_error_upd in Hn.
+  destruct (Nat.eqb_spec n (shift st)) as [E0|E0].
+  - subst n. destruct (nth_error (fracs st) (shift st)) as [f|] eqn:E; simpl in Hn; inversion Hn; subst k.
+    assert (P : pf (shift st) (length (map key_of (fracs st))) (shift st) (key_of f)) by (apply HI; unfold keys; rewrite nth_error_map, E; auto).
+    rewrite map_length in P. rewrite (nth_error_getf _ _ _ E) in E2, E4.
+    destruct P as [T [S1 [S2 S3]]].
+    destruct (replaced (f_seal f)) eqn:R; unfold pf, key_of, table_ok in *; simpl in *.
+    + repeat split; auto; intros; try (match goal with A : f_act f = false, B : f_sld f = false |- _ => destruct (S1 A B); lia end); try lia.
+    + destruct (f_seal f); simpl in *; try discriminate; repeat split; auto; intros; try lia; try discriminate.
+  - assert (P : pf (shift st) (length (map key_of (fracs st))) n k) by (apply HI; unfold keys; rewrite nth_error_map; auto).
+    rewrite map_length in P. destruct P as [T [S1 [S2 S3]]]. repeat split; auto; intros;
+      try (match goal with A : k_act k = false, B : k_sld k = false |- _ => destruct (S1 A B); auto; lia end).
+Qed.
+
+Lemma step_inv c st l : Inv st -> Inv (fst (step c st l)).
+Proof.
+  intros HI. destruct l; simpl.
+  - apply step_w_inv; auto.
+  - destruct (step_snap_keys st (N.to_nat r)) as [A B]. eapply Inv_same; eauto.
+  - destruct (step_sb_keys c st (N.to_nat r) (N.to_nat j) (N.to_nat q)) as [A B]. eapply Inv_same; eauto.
+  - destruct (step_fb_keys c st (N.to_nat r) (N.to_nat j) ids) as [A B]. eapply Inv_same; eauto.
+  - destruct (step_r_keys c st (N.to_nat r)) as [A B]. eapply Inv_same; eauto.
+  - apply step_rot_inv; auto.
+  - apply step_m_inv; auto.
+  - apply step_sui_inv; auto.
+Qed.
+
+Lemma init_inv c n : Inv (init c n).
+Proof.
+  intros g k H. unfold keys, init in H; simpl in H. destruct g as [|[|g]]; simpl in H; try discriminate.
+  inversion H; subst. unfold pf; simpl. repeat split; auto; discriminate.
+Qed.
+
+Lemma exec_inv c ls : forall st, Inv st -> Inv (exec c st ls).
+Proof. induction ls; simpl; intros; auto. apply IHls. apply step_inv; auto. Qed.
+
+(* ---------------------------------------------------------------- statements used by Props.v *)
+Lemma state_code_table f : table_ok (key_of f) = true -> (state_code f <> 9)%N.
+Proof.
+  unfold table_ok, key_of, state_code; simpl.
+  destruct (f_seal f), (f_act f), (f_sld f), (f_ro f); simpl; intros H; try discriminate; intro; discriminate.
+Qed.
+
+Lemma proxy_four_states c n ls g f :
+  nth_error (fracs (exec c (init c n) ls)) g = Some f ->
+  (state_code f = 0 \/ state_code f = 1 \/ state_code f = 2 \/ state_code f = 3)%N
+  /\ (state_code f = 3%N -> g < shift (exec c (init c n) ls)).
+Proof.
+  intros H. pose proof (exec_inv c ls _ (init_inv c n)) as HI.
+  assert (P := HI g (key_of f)). unfold keys in P. rewrite nth_error_map, H in P. specialize (P eq_refl).
+  destruct P as [T [S1 _]]. split.
+  - pose proof (state_code_table f T) as N9. unfold state_code in *.
+    destruct (f_act f), (f_sld f), (f_ro f); auto; exfalso; apply N9; reflexivity.
+  - intros C. unfold state_code in C. simpl in S1.
+    destruct (f_act f), (f_sld f), (f_ro f); try discriminate; apply S1; auto.
+Qed.
+
+(* once the seal thread is past WaitWriteIdle the fraction's index WaitGroup is zero, the fraction is read-only
+   (or already deleted) and an append on it is refused and re-routed to the current writer *)
+Lemma handover_no_gap c n ls g f :
+  let st := exec c (init c n) ls in
+  nth_error (fracs st) g = Some f ->
+  idle_passed (f_seal f) = true ->
+  f_wg f = 0
+  /\ (f_act f && negb (f_sld f) && negb (f_ro f) = false)%bool
+  /\ g <> last_g st
+  /\ forall w x, nth_error (ws st) w = Some x -> w_pc x = 1 -> w_g x = g ->
+       snd (step_w c st w) = OHook 1 /\
+       nth_error (ws (fst (step_w c st w))) w = Some (mkW (w_cur x) 1 (last_g st) 0 [] 0 [] 0).
+Proof.
+  intros st H L. pose proof (exec_inv c ls _ (init_inv c n)) as HI. fold st in HI.
+  assert (P := HI g (key_of f)). unfold keys in P. rewrite nth_error_map, H in P. specialize (P eq_refl).
+  destruct P as [T [S1 [S2 S3]]]. simpl in *.
+  assert (RO : (f_act f && negb (f_sld f) && negb (f_ro f))%bool = false).
+  { unfold table_ok in T; simpl in T. destruct (f_seal f), (f_act f), (f_sld f), (f_ro f); simpl in *; try discriminate; auto. }
+  repeat split; auto.
+  - intros E. rewrite map_length in S3. unfold last_g in E. rewrite S3 in L by auto. discriminate.
+  - unfold step_w. rewrite H0, H1. rewrite H2, (nth_error_getf _ _ _ H), RO. reflexivity.
+  - unfold step_w. rewrite H0, H1. rewrite H2, (nth_error_getf _ _ _ H), RO. simpl.
+    unfold setw; simpl. rewrite nth_error_upd, Nat.eqb_refl, H0. reflexivity.
+Qed.
